@@ -1,6 +1,6 @@
 //! unit: u18o
 //! properties: C18
-//! note: BOLT-11 field sizes, what the builder-side bounds guarantee the writer (lightning-invoice): a tagged field's data length is written in two base-32 symbols, so it must stay below 1024 symbols - the writer ASSERTS it (u18n). bytes_size_to_base32_size (whole) is the number of 5-bit symbols N bytes take, rounded up; Description::new accepts at most 639 bytes and PrivateRoute::new at most 12 hops of 51 bytes, and the lemmas show that these are exactly the bounds under which the assertion holds (639 bytes are 1023 symbols, 640 would be 1024; 12 hops are 980 symbols, 13 would be 1061), so that every description and route hint a builder accepts can be written and parses back
+//! note: BOLT-11 field sizes, what the builder-side bounds guarantee the writer (lightning-invoice): a tagged field's data length is written in two base-32 symbols, so it must stay below 1024 symbols - the writer ASSERTS it (u18n). bytes_size_to_base32_size (whole) is the number of 5-bit symbols N bytes take, rounded up; Description::new and the builder's payment metadata accept at most 639 bytes and PrivateRoute::new at most 12 hops of 51 bytes, and the lemmas show that these are exactly the bounds under which the assertion holds (639 bytes are 1023 symbols, 640 would be 1024; 12 hops are 980 symbols, 13 would be 1061), so that every description and route hint a builder accepts can be written and parses back
 //! trusted: R5: String is its length (Description::new reads nothing else), UntrustedString opaque; RouteHint is its list of hops (opaque elements); MAX_TAGGED_FIELD_DATA_BYTES folded from the source
 //! plemma: C18 lemma_description_bound_is_the_largest_that_fits: 639 bytes fit a tagged field, 640 do not
 //! plemma: C18 lemma_route_hint_bound_is_the_largest_that_fits: 12 hops fit a tagged field, 13 do not
@@ -58,6 +58,16 @@ impl PrivateRoute {
     if hops.0.len() <= 13 {
 //@end
 }
+//@extract lightning-invoice/src/lib.rs :: impl InvoiceBuilder :: fn optional_payment_metadata
+//@slice R15
+    if $c:cond { self.error = Some(CreationError::PaymentMetadataTooLong); } else {
+//@with
+    fn payment_metadata_is_too_long_for_a_field(payment_metadata: &Vec<u8>) -> bool { $c }
+//@ret r
+//@ensures P C18 payment-metadata-is-refused-exactly-above-639-bytes
+    r == (payment_metadata@.len() > 639),
+    !r ==> symbols(payment_metadata@.len() as int) < 1024,
+//@end
 pub proof fn lemma_description_bound_is_the_largest_that_fits() ensures symbols(639int) == 1023, symbols(640int) == 1024, MAX_TAGGED_FIELD_DATA_BYTES == 639 {}
 pub proof fn lemma_route_hint_bound_is_the_largest_that_fits() ensures symbols(612int) == 980, symbols(663int) == 1061, 51 * 12 == 612int, 51 * 13 == 663int {}
 }
